@@ -27,6 +27,7 @@ func scenC05(r *Run, job *Job) {
 	point := ""
 	var offset time.Duration
 	sweepWho := 0
+	lateAndSilent := false
 	switch profile {
 	case "stall":
 		point = c05Points[t.Draw(len(c05Points))]
@@ -51,6 +52,7 @@ func scenC05(r *Run, job *Job) {
 				exts = append(exts, ExtCfg{Name: "e1", Subs: []string{"INVOKE", "SHUTDOWN"}})
 			}
 		}
+		lateAndSilent = sweepWho == 3 && t.Chance(1, 3)
 		if sweepWho == 3 && t.Chance(1, 2) {
 			// ... and the dispatch that follows is descheduled for a moment, across the expiry
 			r.AddHold([]string{"HandleInvoke", "setReplyStream", "FastInvoke", "rapidcore.(*Server).Invoke"}[t.Draw(4)], 1+t.Draw(3), 1+t.Draw(4))
@@ -147,6 +149,11 @@ func scenC05(r *Run, job *Job) {
 					b.Script = []Op{{Kind: "next"}, {Kind: "response"}, {Kind: "until", D: T + offset}, {Kind: "next"}}
 				case 3:
 					b.Script = []Op{{Kind: "untilinv", D: T + offset}, {Kind: "next"}, {Kind: "response"}}
+					if lateAndSilent {
+						// ... and, once it has polled, never answers: the only thing that can end this invocation is the
+						// cancellation by the timeout, which may have arrived before the dispatch armed its barriers
+						b.Script, b.ThenHealthy = []Op{{Kind: "untilinv", D: T + offset}, {Kind: "next"}, {Kind: "stall", D: 20 * T}}, false
+					}
 				case 4:
 					b.Script, b.ThenHealthy = []Op{{Kind: "next"}, {Kind: "until", D: T + offset}, {Kind: "exit", N: 1}}, false
 				}
@@ -179,7 +186,7 @@ func scenC05(r *Run, job *Job) {
 		pointDesc += "(twice)"
 		e.Bound += time.Duration(timeoutSec+16) * time.Second
 	}
-	r.Desc = fmt.Sprintf("C05 %s T=%ds point=%s offset=%v who=%d exts=%v rtOnTerm=%q extOnShutdown=%q killLat=%s reorder=%d/%d", profile, timeoutSec, pointDesc, offset, sweepWho, exts, rtOnTerm, extOnShut, killLat, r.ReorderNum, r.ReorderDen)
+	r.Desc = fmt.Sprintf("C05 %s T=%ds point=%s offset=%v who=%d silent=%v exts=%v rtOnTerm=%q extOnShutdown=%q killLat=%s reorder=%d/%d", profile, timeoutSec, pointDesc, offset, sweepWho, lateAndSilent, exts, rtOnTerm, extOnShut, killLat, r.ReorderNum, r.ReorderDen)
 	r.Logf("%s", r.Desc)
 	e.Stuck = func() {
 		for _, inv := range w.Invokes {
@@ -190,7 +197,11 @@ func scenC05(r *Run, job *Job) {
 	e.Run()
 	r.ReleaseHolds()
 	r.Settle()
-	c05Judge(r, w, e, T, offset, profile, sweepWho, maxKillLat, firstExt != "", nFaulty)
+	judgeWho := sweepWho
+	if lateAndSilent {
+		judgeWho = 5 // the party never answers after all: only the bounds of a timeout apply
+	}
+	c05Judge(r, w, e, T, offset, profile, judgeWho, maxKillLat, firstExt != "", nFaulty)
 }
 
 func c05Judge(r *Run, w *World, e *Engine, T, offset time.Duration, profile string, sweepWho int, killLat time.Duration, hasExt bool, nFaulty int) {
@@ -235,7 +246,7 @@ func c05Judge(r *Run, w *World, e *Engine, T, offset time.Duration, profile stri
 				} else {
 					r.Probe("sweep-timeout")
 				}
-				if offset < 0 && !r.holdEverFired() {
+				if offset < 0 && !r.holdEverFired() && sweepWho != 5 {
 					r.Probe(fmt.Sprintf("response-within-%s-of-expiry", -offset))
 					r.Check(isResp, "C05.timeout-before-expiry", "everything returned %s before expiry but the outcome was %d %s", -offset, st, summarize(body))
 				}
